@@ -1,8 +1,11 @@
 //! Registry of the property checks.
 use crate::engine::*;
 
+pub mod c01;
+pub mod c01_rules;
 pub mod selftest;
+pub mod sqlcase;
 
 pub fn all() -> Vec<PropDef> {
-    vec![selftest::def()]
+    vec![selftest::def(), c01::def()]
 }
